@@ -145,3 +145,11 @@ REG["C12"] = {
     "level_note": _NOTE + " Histories of two cooks in one process on a cached pathos pool are outside this check.",
     "engine": "tlc+replay+trace",
 }
+
+REG["C07"] = {
+    "technique": "TLC model checking of Mandoline.tla over Mesh.tla (box selection incl. half-cell neighbours, slice_box cases, level-then-header reduction into uninitialised left/right arrays, domain-face rules, interpolation; SliceRefines against the per-pixel set Acceptable, NoUninit, GridLevelOK, SpecNonEmpty) on an integer lattice with distinct positions for centres, faces and half-cell gaps + replay of emitted scenarios into the real Mandoline with poisoned numpy.empty",
+    "level_text": ("Every mesh within the bounds (4x2 coarse cells, <=3 levels, <=2 nested boxes per fine level, every level-0 tiling) x EVERY lattice position of the closed domain plus the two outside x every limit is model-checked (2e5..4e5 states); "
+                   "a seed-selected residue class of scenarios (quick ~900, thorough ~12000) is replayed for all six (normal, in-plane, extruded) axis assignments, serial and parallel, non-zero origins, anisotropic cells, "
+                   "with random, affine-along-normal and constant-along-normal fields and grid_level; each pixel must equal the interpolation of one of the acceptable sample pairs (1e-9)."),
+    "level_note": _NOTE,
+}
